@@ -330,7 +330,18 @@ class Ctx:
 
     # -- proof obligations
     def proofs(self):
-        """Compile the property's theorem file; every theorem is an obligation."""
+        """Regenerate the source-derived Coq files from the current tree, then compile the property's
+        theorem file; every theorem is an obligation."""
+        try:
+            r = subprocess.run(["/venv/bin/python", str(VERIF / "tools" / "py2coq.py"), "--all"],
+                               capture_output=True, text=True, timeout=300,
+                               env=dict(os.environ, SCICO_REPO=str(REPO)))
+            if r.returncode != 0:
+                self.notes.append("py2coq reported an untranslatable unit (its generated file does not compile; "
+                                  "properties that depend on it report a broken obligation): "
+                                  + (r.stdout + r.stderr).strip()[-400:])
+        except Exception as ex:   # noqa: BLE001
+            self.notes.append(f"py2coq could not be run: {ex}")
         try:
             n, ax, names = check_property_file(self.pid)
             self.obligations += n
